@@ -378,7 +378,10 @@ func TestC19(t *testing.T) {
 		}
 	}
 	vals = append(vals, `"a b"`, `"é\n"`, `"é"`, `"bad\q"`, `"un"terminated"`, `'aGVsbG8='`, `'aGVsbG8'`, `'a'`, `'****'`, `''`, `'QUJD'`, `'QUJDRA=='`, `0x1p-2`, `1_000`, `1e5`, `1E5`, `0b101`, `0o17`, `010`, `-0017`,
-		`9223372036854775807`, `9223372036854775808`, `-9223372036854775808`, `-9223372036854775809`, strings.Repeat("9", 40), `3.`, `.5`, `-.5`, `+5`, `+-5`, `5..`, `1.2.3`, ` 5`, `5 `, `٣`, `tRue`, `nil`)
+		`9223372036854775807`, `9223372036854775808`, `-9223372036854775808`, `-9223372036854775809`, strings.Repeat("9", 40),
+		// decimals that overflow float64 (and that underflow it): still numbers on the way in, marshalable on the way out
+		strings.Repeat("9", 310), "-" + strings.Repeat("7", 400), strings.Repeat("1", 320) + ".5", "0." + strings.Repeat("0", 400) + "1", "1" + strings.Repeat("0", 308), "1" + strings.Repeat("0", 309), "2" + strings.Repeat("0", 308),
+		"17976931348623157" + strings.Repeat("0", 292), "17976931348623159" + strings.Repeat("0", 292), "-17976931348623159" + strings.Repeat("9", 292) + ".9", "000" + strings.Repeat("9", 308), `3.`, `.5`, `-.5`, `+5`, `+-5`, `5..`, `1.2.3`, ` 5`, `5 `, `٣`, `tRue`, `nil`)
 	var lines, impl []string
 	for _, v := range vals {
 		req := httptest.NewRequest("GET", "http://x/m?v="+url.QueryEscape(v), nil)
